@@ -269,15 +269,13 @@ impl MT935 {
                 }
 
                 // Extract remaining part (could be [2!n]function or just function)
-                let remaining = &value[3..];
+                let remaining = value.get(3..).unwrap_or("");
 
                 // Check if next 2 characters are digits (Number of Days)
-                let (num_days, function_start) =
-                    if remaining.len() >= 2 && remaining[..2].chars().all(|c| c.is_ascii_digit()) {
-                        (Some(&remaining[..2]), 2)
-                    } else {
-                        (None, 0)
-                    };
+                let (num_days, function_start) = match remaining.get(..2) {
+                    Some(days) if days.chars().all(|c| c.is_ascii_digit()) => (Some(days), 2),
+                    _ => (None, 0),
+                };
 
                 // Extract function code
                 let function = &remaining[function_start..];
